@@ -188,6 +188,18 @@ class MonoTimer(Timer):
         return self._last
 
 
+    def start(self, duration=None, start=None):
+        """Starts MonoTimer of duration secs at start time start secs.
+            If duration not provided then uses current duration
+            If start not provided then starts at current time.time() and
+            resynchronizes ._last to that reading so that a clock adjustment
+            made before the timer was started is not counted against it.
+        """
+        if start is None:
+            start = self._last = time.time()
+        return super(MonoTimer, self).start(duration=duration, start=start)
+
+
 class AsyncTimer(Timer):
     """Class to manage real elaspsed time using asyncio event loop time.
     Namely asyncio.get_event_loop().time()
